@@ -198,6 +198,42 @@ pub type H2 = std::collections::hash_map::RandomState;
 /// hash mode 3
 pub type H3 = hashbrown::hash_map::DefaultHashBuilder;
 
+/// hash mode 4: an identity-style hasher whose values lie at both ends of the
+/// u64 range (even keys map to u64::MAX - k/2, odd keys to k/2): u64::MAX, 0
+/// and their neighbours are ordinary hash values
+#[derive(Clone, Copy, Default, Debug)]
+pub struct EdgeHasher(u64);
+impl Hasher for EdgeHasher {
+    #[inline]
+    fn finish(&self) -> u64 {
+        self.0
+    }
+    #[inline]
+    fn write(&mut self, bytes: &[u8]) {
+        let mut b = [0u8; 8];
+        let n = bytes.len().min(8);
+        b[..n].copy_from_slice(&bytes[..n]);
+        self.write_u64(u64::from_le_bytes(b));
+    }
+    #[inline]
+    fn write_u64(&mut self, k: u64) {
+        self.0 = if k % 2 == 0 { u64::MAX - k / 2 } else { k / 2 };
+    }
+    #[inline]
+    fn write_i64(&mut self, k: i64) {
+        self.write_u64(k as u64)
+    }
+}
+#[derive(Clone, Copy, Default, Debug)]
+pub struct H4;
+impl BuildHasher for H4 {
+    type Hasher = EdgeHasher;
+    #[inline]
+    fn build_hasher(&self) -> EdgeHasher {
+        EdgeHasher(0)
+    }
+}
+
 /// hash mode 1: every item collides
 #[derive(Clone, Copy, Default, Debug)]
 pub struct ConstHasher;
